@@ -156,50 +156,26 @@ theorem streamOutflowInitArg_eq :
 /-- what the caller's SETTINGS seed: the repaired or the known-defective shape (for each of
 the two defects that live in this switch). -/
 theorem callerSeeds_known :
-    Generated.C06Facts.callerSeeds ∈
-      [ -- unchanged code
-        [("http2.SettingMaxFrameSize", "cc.maxFrameSize", "setting.Val"),
-         ("http2.SettingMaxHeaderListSize", "t.MaxHeaderListSize", "setting.Val"),
-         ("http2.SettingHeaderTableSize", "headerTableSize", "setting.Val")],
-        -- fixes/C06-1 applied
-        [("http2.SettingMaxHeaderListSize", "t.MaxHeaderListSize", "setting.Val"),
-         ("http2.SettingHeaderTableSize", "headerTableSize", "setting.Val")],
-        -- fixes/C06-2 applied
-        [("http2.SettingMaxFrameSize", "cc.maxFrameSize", "setting.Val"),
-         ("http2.SettingMaxHeaderListSize", "t.MaxHeaderListSize", "setting.Val"),
-         ("http2.SettingHeaderTableSize", "headerTableSize", "setting.Val"),
-         ("http2.SettingInitialWindowSize", "cc.streamInflow", "int32(setting.Val)")],
-        -- both
+    Generated.C06Facts.callerSeeds =
+        -- the repaired shape only (fixes C06-1 91478db and C06-2 241d886 are in /repo): the caller's
+        -- MAX_FRAME_SIZE no longer seeds cc.maxFrameSize, its INITIAL_WINDOW_SIZE seeds the stream inflow
         [("http2.SettingMaxHeaderListSize", "t.MaxHeaderListSize", "setting.Val"),
          ("http2.SettingHeaderTableSize", "headerTableSize", "setting.Val"),
-         ("http2.SettingInitialWindowSize", "cc.streamInflow", "int32(setting.Val)")] ] := by
-  first
-  | exact List.mem_cons_self
-  | exact List.mem_cons_of_mem _ List.mem_cons_self
-  | exact List.mem_cons_of_mem _ (List.mem_cons_of_mem _ List.mem_cons_self)
-  | exact List.mem_cons_of_mem _ (List.mem_cons_of_mem _ (List.mem_cons_of_mem _ List.mem_cons_self))
+         ("http2.SettingInitialWindowSize", "cc.streamInflow", "int32(setting.Val)")] := rfl
 
 /-- the argument of `cs.inflow.init`: the hard-coded default (unchanged code) or the value
 seeded from the advertised SETTINGS_INITIAL_WINDOW_SIZE (fixes/C06-2), whose own default is
 `transportDefaultStreamFlow`. -/
 theorem streamInflowInit_known :
-    (Generated.C06Facts.streamInflowInitArg = "transportDefaultStreamFlow" ∧
-      Generated.C06Facts.cc_streamInflow_0 = none) ∨
-    (Generated.C06Facts.streamInflowInitArg = "cc.streamInflow" ∧
-      Generated.C06Facts.cc_streamInflow_0 = some Conn.transportDefaultStreamFlow) := by
-  first
-  | exact Or.inl ⟨rfl, rfl⟩
-  | exact Or.inr ⟨rfl, rfl⟩
+    Generated.C06Facts.streamInflowInitArg = "cc.streamInflow" ∧
+      Generated.C06Facts.cc_streamInflow_0 = some Conn.transportDefaultStreamFlow := ⟨rfl, rfl⟩
 
 /-- the PRIORITY-frame seed of `nextStreamID`: unchanged code or fixes/C06-3. -/
 theorem prioSeed_known :
-    (∀ nx id, Generated.C06Facts.prioSeed nx id = Conn.prioSeedLegacy nx id) ∨
-    (∀ nx id, Generated.C06Facts.prioSeed nx id = Conn.prioSeedFixed nx id) := by
-  first
-  | exact Or.inl (fun _ _ => rfl)
-  | refine Or.inr (fun nx id => ?_)
-    unfold Generated.C06Facts.prioSeed Conn.prioSeedFixed
-    simp only [decide_eq_true_eq]
+    ∀ nx id, Generated.C06Facts.prioSeed nx id = Conn.prioSeedFixed nx id := by
+  intro nx id
+  unfold Generated.C06Facts.prioSeed Conn.prioSeedFixed
+  simp only [decide_eq_true_eq]
 
 theorem awaitTake_eq (a maxBytes maxFrameSize : Int)
     (ha : In32 a) (hb : 0 ≤ maxBytes) (hb' : maxBytes < 4611686018427387904)
